@@ -115,7 +115,7 @@ func runGpromise(c *Ctx) {
 	}
 	// --- every function that closes a Promise's done channel also arms isDone on that path (a
 	// pre-resolved promise must refuse a later SetResult exactly like one resolved by SetResult)
-	for _, d := range declsWhere(c, "promise", func(d *core.FuncDecl, n ast.Node) bool {
+	closesDone := func(d *core.FuncDecl, n ast.Node) bool {
 		call, ok := n.(*ast.CallExpr)
 		if !ok || len(call.Args) != 1 {
 			return false
@@ -126,10 +126,15 @@ func runGpromise(c *Ctx) {
 		}
 		fv := fieldVar(call.Args[0], &core.Frame{Pkg: d.Pkg})
 		return fv != nil && core.FieldName(fv) == "promise.Promise.done"
-	}) {
+	}
+	for _, d := range pkgDecls(c, "promise") {
+		// the exported functions from which the close is reached (helpers walked in place)
+		if !d.Obj.Exported() || !bodyOrCalleesMatch(c, d, closesDone, 2) {
+			continue
+		}
 		d := d
 		name := core.FuncName(d.Obj)
-		c.Walk("R9", &core.Config{}, core.Entry{Decl: d}, func(p *core.Path) {
+		c.Walk("R9", &core.Config{Follow: helperFollow("promise")}, core.Entry{Decl: d}, func(p *core.Path) {
 			if p.End != core.EndReturn {
 				return
 			}
@@ -269,29 +274,29 @@ func runGpromise(c *Ctx) {
 			od := goLits[l]
 			ges = append(ges, goEntry{core.Entry{Lit: l, Pkg: od.Pkg, Outer: od, Name: sprintf("%s.go#%d", name, li+1)}, sprintf("%s.go#%d", name, li+1)})
 		}
-		// o.prom is cleared only by the callback goroutine (after the callback returned): a nil
-		// assignment anywhere else in the package lets a second callback run start while the first
-		// is still executing
+		// o.prom is cleared only by the callback goroutine (after the callback returned): no path of an
+		// exported method's own goroutine (helpers walked in place; the go body is not part of it)
+		// sets it to nil — that would let a second callback run start while the first still executes
 		for _, od := range pkgDecls(c, "promise") {
 			od := od
-			ast.Inspect(od.Decl.Body, func(n ast.Node) bool {
-				rhs, ok := assignsFieldNode(od, n, "promise.Once.prom")
-				if !ok || rhs == nil || !isNilExpr(rhs, &core.Frame{Pkg: od.Pkg}) {
-					return true
+			if rn := core.RecvNamed(od.Obj); rn == nil || rn.Obj().Name() != "Once" || !od.Obj.Exported() {
+				continue
+			}
+			c.Walk("R8", &core.Config{Follow: func(f *types.Func) bool {
+				if goDecl != nil && f.Origin() == goDecl.Obj {
+					return false
 				}
-				inGo := false
-				for _, ge := range ges {
-					if ge.e.Decl != nil && ge.e.Decl == od {
-						inGo = true
-					}
-					if ge.e.Lit != nil && n.Pos() >= ge.e.Lit.Pos() && n.End() <= ge.e.Lit.End() {
-						inGo = true
+				return helperFollow("promise")(f)
+			}}, core.Entry{Decl: od}, func(p *core.Path) {
+				for _, ev := range p.Events {
+					if assignsField(ev, "promise.Once.prom", "nil") {
+						a.note("R8", core.FuncName(od.Obj)+"/clear-only-in-callback-goroutine", ev.Pos, true, "",
+							"o.prom is set to nil on the calling goroutine's own path ("+enclosingName(c, ev)+"): the attempt in flight is forgotten while its callback is still running, and the next Resolve starts a second, overlapping run", p)
 					}
 				}
-				a.note("R8", name+"/clear-only-in-callback-goroutine", n.Pos(), !inGo,
-					"o.prom is cleared only by the goroutine that ran the callback",
-					"o.prom is set to nil outside the callback goroutine ("+core.FuncName(od.Obj)+"): the attempt in flight is forgotten while its callback is still running, and the next Resolve starts a second, overlapping run", nil)
-				return true
+				if p.End == core.EndReturn || p.End == core.EndLoopCut {
+					a.note("R8", core.FuncName(od.Obj)+"/clear-only-in-callback-goroutine", od.Decl.Pos(), false, "o.prom is cleared only by the goroutine that ran the callback", "", p)
+				}
 			})
 		}
 		for _, ge := range ges {
@@ -910,7 +915,9 @@ func runGccontainer(c *Ctx) {
 				}
 			}
 		})
-		a.expect("R12", name+"/different-only-after-custom-equality", 1, "return false in the comparison helper")
+		if sig, ok := d.Obj.Type().(*types.Signature); ok && sig.Results().Len() == 1 && isBoolType(sig.Results().At(0).Type()) {
+			a.expect("R12", name+"/different-only-after-custom-equality", 1, "return false in the comparison helper")
+		}
 	}
 	for _, fn := range []string{"WaitValue", "WaitValueChange", "WaitValueEmpty"} {
 		d := c.declByName("R12", "ccontainer", "CContainer", fn)
